@@ -80,6 +80,8 @@ def families(tier, seed):
     models = gen.c05_models(seed, n, depth) + gen.c05_models(seed + 1, n // 3, 2)
     rng = random.Random(seed)
     for tag, feats, model in models:
+        from rtc import mdl as _mdl
+        feats = dict(feats, **_mdl.tree_features(model["ops"]["eo"]["eqs"][0][2], seed))
         styles = (0, 1, 2, 3) if tier == "thorough" else (rng.choice([0, 1]), rng.choice([2, 3]))
         for st in styles:
             out.append(dict(tag=f"{tag}/code/s{st}", features=dict(feats, style=st, path="code"), kind="field", model=model, vec=False,
@@ -90,7 +92,10 @@ def families(tier, seed):
         out.append(dict(tag=f"{tag}/eval", features=dict(feats, path="eval"), kind="expr_eval", tree=tree, values=vals, style=rng.choice([0, 1, 2, 3])))
     # sequences of expressions in one process (direct evaluation): random batches, and pairs whose non-commutative node has compound
     # operands of different kinds with the longer operand on opposite sides
-    singles = [c for c in out if c["kind"] == "expr_eval"]
+    # (expressions with the structure of a listed finding — a function of numerically constant arguments, a function nested in
+    #  itself — fail on their own and are left out of the batches)
+    singles = [c for c in out if c["kind"] == "expr_eval" and not c["features"].get("const_call_funcs")
+               and not c["features"].get("nested_same_function")]
     for b in range(3 if tier == "quick" else 12):
         chunk = singles[b::(3 if tier == "quick" else 12)][:15]
         out.append(dict(tag=f"eval-sequence-{b}", features=dict(path="eval", sequence=True), kind="expr_eval_seq",
@@ -118,6 +123,8 @@ def families(tier, seed):
         vals = {k: (v[1] if v[0] == "const" else 0.45) for k, v in op["vars"].items()}
         out.append(dict(tag=f"{tag}/eval", features=dict(feats, path="eval"), kind="expr_eval", tree=op["eqs"][0][2], values=vals, style=0))
     for tag, feats, model in gen.c05_witnesses():
+        from rtc import mdl as _mdl
+        feats = dict(feats, **_mdl.tree_features(model["ops"]["eo"]["eqs"][0][2], seed))
         out.append(dict(tag=tag, features=dict(feats, path="code"), kind="field", model=model, vec=False, seed=seed, style=0))
     # operator inputs rewritten textually (summed multi-source inputs), incl. as the last token of the equation
     for tag, feats, model in gen.c01_structured():
@@ -153,7 +160,7 @@ def main():
              "through get_run_func at 3 states x 2 parameter draws, (2) through ExpressionParser + eval_node, singly and as sequences of expressions "
              "in one process (random batches; pairs of general powers whose operands are compound and of different kinds with the longer "
              "one on opposite sides); value == direct evaluation of the tree with NumPy float64; distinct = (tree, style, path)",
-        sample_of=lambda c: {k: v for k, v in c.items() if k not in ("features",)})
+        sample_of=lambda c: {k: v for k, v in c.items() if k not in ("features",)}, timeout=90)
     driver.run_sequences(chk, "expression-trees-both-paths-in-sequence", _cases, _results, dispatch, site="C05/expressions",
                          limit=20 if chk.tier == "quick" else 120, seed=chk.seed)
     rc = chk.finish(
